@@ -16,8 +16,40 @@ pub const STRS: &[&str] = &["", "a", "abc", "9", "10", "9.5", "-0", "1e3", " 1",
     // line breaks of every convention INSIDE a text (a literal spanning a Windows line break): CR LF, LF CR, lone CR, doubled
     "a\r\nb", "\r\n", "\n\r", "x\r\n\r\ny\r", "\r", "+inf", "-Infinity",
     // digit strings at the limits of the integer types (a comparison "done exactly in i64" saturates here); NUL-terminated look-alikes
-    "9223372036854775807", "-9223372036854775808", "9007199254740993", "18446744073709551615", "a\0", "\0"];
+    "9223372036854775807", "-9223372036854775808", "9007199254740993", "18446744073709551615", "a\0", "\0",
+    // what is an escape sequence / entity in OTHER languages and plain text here (a "convenience" decoder in the scanner or in a builtin shows)
+    "\\u{41}", "^\\d+\\u{20AC}$", "\\n", "\\x41", "\\\\", "%41", "&#65;", "&amp;", "\\101", "\\t", "\\u0041", "\\'", "\\", "a\\",
+    // number look-alikes that str::parse::<f64> rejects: typographic minus signs, full-width and Arabic-Indic digits, decimal commas, digit grouping
+    "\u{2212}1", "\u{2212}12.5", "1e\u{2212}3", "\u{FF0D}3.25", "\u{2013}5", "\u{FE63}2", "\u{FF11}\u{FF12}", "12,5", "2,75", "1.234,5", "1,234.5", "1 000", "1'000", "1\u{a0}000", "\u{663}",
+    // characters whose UTF-16 code-unit order differs from their scalar-value order (U+E000..U+FFFF against the supplementary planes)
+    "\u{FF21}", "\u{1F600}", "\u{FFFD}x", "\u{E000}", "\u{10000}", "a\u{FB01}", "a\u{1F600}", "\u{FFFF}", "\u{10FFFF}"];
 
+/// a decimal literal with MANY significant digits that lies exactly on, just above or just below the midpoint of two adjacent doubles
+/// (exact integer arithmetic in u128): the nearest double depends on digits far beyond the 17th
+pub fn midpoint_literal(r: &mut Rng) -> String {
+    let nudge = |r: &mut Rng, digits: String, frac: Option<String>| -> String {
+        // exact midpoint / a hair above (…0001 appended) / a hair below (last digit lowered, …9999 appended)
+        let (mut i, mut f) = (digits, frac.unwrap_or_default());
+        match r.below(4) {
+            0 => {}
+            1 | 2 => { f.push_str(&"0".repeat(r.usize(25))); f.push('1'); }
+            _ => { let mut all: Vec<u8> = format!("{}{}", i, f).into_bytes(); let il = i.len(); let mut k = all.len();
+                   while k > 0 { k -= 1; if all[k] > b'0' { all[k] -= 1; break; } else { all[k] = b'9'; } }
+                   let t = String::from_utf8(all).unwrap(); i = t[..il].to_string(); f = t[il..].to_string(); f.push_str(&"9".repeat(1 + r.usize(25))); }
+        }
+        if f.is_empty() { if r.chance(1, 2) { i } else { format!("{}.", i) } } else { format!("{}.{}", i, f) }
+    };
+    if r.chance(1, 2) {
+        // integer-valued doubles m * 2^k (m of 53 bits, 1 <= k <= 60): the midpoint to the next double is the integer (2m+1) * 2^(k-1)
+        let m = (1u128 << 52) | (r.next() as u128 & ((1u128 << 52) - 1)); let k = 1 + r.below(60) as u32;
+        let mid = (2 * m + 1) << (k - 1);
+        nudge(r, mid.to_string(), None)
+    } else {
+        // 1 + j * 2^-52 for small j: the midpoint is 1 + (2j+1) * 2^-53 = 1.<(2j+1) * 5^53 written with 53 digits>
+        let j = r.below(14) as u128; let p = 5u128.pow(53) * (2 * j + 1);
+        nudge(r, "1".into(), Some(format!("{:053}", p)))
+    }
+}
 pub fn gen_num(r: &mut Rng) -> f64 {
     match r.below(5) {
         0 | 1 => *r.pick(NUMS),
